@@ -602,6 +602,9 @@ class DestHandler:
                 self._start_deferred_lost_segment_handling()
             else:
                 self._checksum_verify()
+                if self.states.state == CfdpState.IDLE:
+                    # The transaction was abandoned because of a checksum failure.
+                    return
                 self.states.step = TransactionStep.TRANSFER_COMPLETION
 
     def _start_transaction(self, metadata_pdu: MetadataPdu) -> bool:
@@ -753,6 +756,9 @@ class DestHandler:
         if not self._params.fp.metadata_only:
             self.states.step = TransactionStep.RECEIVING_FILE_DATA
             self._init_vfs_handling(Path(metadata_pdu.source_file_name).name)  # type: ignore
+            if self.states.state == CfdpState.IDLE:
+                # The transaction was abandoned because of a filestore rejection.
+                return
         else:
             self.states.step = TransactionStep.TRANSFER_COMPLETION
         msgs_to_user_list = None
@@ -973,6 +979,9 @@ class DestHandler:
         ):
             # We are done and have received everything.
             self._checksum_verify()
+            if self.states.state == CfdpState.IDLE:
+                # The transaction was abandoned because of a checksum failure.
+                return
             self.states.step = TransactionStep.TRANSFER_COMPLETION
             self._params.acked_params.deferred_lost_segment_detection_active = False
             return
